@@ -73,9 +73,9 @@ theorem absent_key_unchanged (ho : TotalOrder cmp) (t : TreeTable) (h : t.Inv cm
   error_is_inert t h (.remove k) m .errKeyNotFound
     (absent_key_rejected ho t h k m hk).2.1 (by decide) (by decide)
 
-/-- no successor at the maximum, no predecessor at the minimum (defect T1).  (`_model`: the successor
-walk is the in-order successor, see the header of `C03`; the harness dump guards the pointer walk.) -/
-theorem extreme_rejected_model (ho : TotalOrder cmp) (t : TreeTable) (h : t.Inv cmp) (k : Nat) (m : Mem) :
+/-- no successor at the maximum, no predecessor at the minimum (defect T1): the successor
+walk returns the sentinel there (`C03.successor_walk_is_inorder`) -/
+theorem extreme_rejected (ho : TotalOrder cmp) (t : TreeTable) (h : t.Inv cmp) (k : Nat) (m : Mem) :
     ((∀ e ∈ t.abs, ¬ cmp k e.1 < 0) → (t.step cmp (.greaterThan k) m).1.st = some .errKeyNotFound) ∧
     ((∀ e ∈ t.abs, ¬ cmp e.1 k < 0) → (t.step cmp (.lesserThan k) m).1.st = some .errKeyNotFound) := by
   constructor
